@@ -319,9 +319,10 @@ class StringIO(IOBase):
                         return None
                     reply = self._conn.readline(self.timeout)
                 except ConnectionClosed:
-                    self.closeConnection()
                     # remember the failure: the reconnect callbacks have to run after reconnecting
+                    # (before closing: another thread may reconnect as soon as is_connected is False)
                     self._last_error = 'disconnected'
+                    self.closeConnection()
                     raise CommunicationFailedError('disconnected') from None
                 reply = reply.decode(self.encoding)
                 self.comLog('< %s', reply)
@@ -475,9 +476,10 @@ class BytesIO(IOBase):
                     self.comLog('> %s', hexify(request))
                     reply = self._conn.readbytes(replylen, self.timeout)
                 except ConnectionClosed:
-                    self.closeConnection()
                     # remember the failure: the reconnect callbacks have to run after reconnecting
+                    # (before closing: another thread may reconnect as soon as is_connected is False)
                     self._last_error = 'disconnected'
+                    self.closeConnection()
                     raise CommunicationFailedError('disconnected') from None
                 self.comLog('< %s', hexify(reply))
                 return self.getFullReply(request, reply)
